@@ -57,6 +57,7 @@ class Knobs:
         self.p_pin = 0.15
         self.p_milestone = 0.15
         self.p_scen = 0.0
+        self.p_glen = 0.0            # a dependency without gapduration carries a gaplength (working-time gap)
         self.p_scen_date = 0.0      # scenario-specific start (ASAP) / end (ALAP) overrides, also on containers
         self.p_prec = 0.0
         self.p_nested_abs = 0.5      # a global holiday inside a resource's multi-day leave
@@ -226,7 +227,8 @@ def gen_project(rng, k=None):
                 hh = rng.choice([9, 10, 13]) * H
                 if not k.aligned_only and pick(rng, 0.6):
                     hh += max(60, (G // 2) // 60 * 60 - rng.choice([0, 60]))   # an absence that begins inside a slot, at any resolution
-                r["bookings"] = [[a + hh, rng.choice(["2h", "3h", "90min"] if not k.aligned_only else ["2h", "3h", "4h"])]]
+                # durations in every calendar unit a booking takes: hours and minutes, days (24 h), weeks (F53)
+                r["bookings"] = [[a + hh, rng.choice(["2h", "3h", "90min", "1d"] if not k.aligned_only else ["2h", "3h", "4h", "1d", "2d", "1w"])]]
         if pick(rng, k.p_limits):
             r["limits"] = gen_limits(rng, G)
         ids.append(r["id"])
@@ -329,12 +331,15 @@ def gen_project(rng, k=None):
             d = {"target": q, "ref": ref_for(rng, fid, q)}
             if pick(rng, k.p_gap):
                 d["gap"] = rng.choice(gap_choices(G, k.aligned_only))
+            elif pick(rng, k.p_glen):
+                # a gap in working time of the project calendar (forward scheduling only reads it)
+                d["glen"] = rng.choice(["1h", "2h", "30min", "90min", "1d", "20min", "3h"])
             if pick(rng, k.p_onstart):
                 d["onstart"] = True
             key = "prec" if pick(rng, k.p_prec) else "deps"
             if key == "prec":
                 # written on the predecessor: `q precedes fid`
-                nodes[q].setdefault("prec", []).append({"target": fid, "ref": ref_for(rng, q, fid), "gap": d.get("gap"), "onstart": d.get("onstart", False)})
+                nodes[q].setdefault("prec", []).append({"target": fid, "ref": ref_for(rng, q, fid), "gap": d.get("gap"), "glen": d.get("glen"), "onstart": d.get("onstart", False)})
             else:
                 t.setdefault("deps", []).append(d)
     # pins, modes, limits
@@ -467,6 +472,8 @@ def features(p):
             f.add("depends")
             if any(d.get("gap") for d in t["deps"]):
                 f.add("gap")
+            if any(d.get("glen") for d in t["deps"]):
+                f.add("gaplength")
             if any(d.get("onstart") for d in t["deps"]):
                 f.add("onstart")
         if t.get("prec"):
